@@ -3,6 +3,7 @@ package work
 import (
 	"crypto/sha512"
 	"math/big"
+	"os"
 
 	"github.com/oasisprotocol/curve25519-voi/curve"
 	"github.com/oasisprotocol/curve25519-voi/curve/scalar"
@@ -18,6 +19,10 @@ var fieldP = func() *big.Int {
 	return p.Sub(p, big.NewInt(19))
 }()
 
+// ColdStart reports whether this worker process was started for the cold-start
+// phase (C18D): package initialisers of the harness then make no library call.
+func ColdStart() bool { return os.Getenv("VERIF_COLD") != "" }
+
 func leBytes32(x *big.Int) []byte {
 	b := x.Bytes()
 	out := make([]byte, 32)
@@ -31,6 +36,9 @@ func leBytes32(x *big.Int) []byte {
 // canonical encoding of its point: y >= p (y = p..p+18) with either sign, and
 // the x = 0 points with the sign bit set.
 var nonCanonicalPoints = func() [][]byte {
+	if ColdStart() {
+		return nil // the cold-start worker must not touch the library before its tasks run
+	}
 	var out [][]byte
 	try := func(b []byte) {
 		var c curve.CompressedEdwardsY
